@@ -327,14 +327,15 @@ class AbbrGen:
         rng = self.rng
         t = ''.join(rng.choice(self.text_alpha) for _ in range(rng.randint(0, 7)))
         if not self.wild and rng.random() < 0.2:
-            t += rng.choice(['"q"', "'s'", '{n}', '(p)', '[s]', 'a > b', '"<b>"', '"\\"'])
+            t += rng.choice(['"q"', "'s'", '{n}', '(p)', '[s]', 'a > b', '"<b>"', '"\\"', '(a, b)', 'f(x y)', '[u v]', '(p [q r] s)'])
         return balance_curly(t)
 
     def qval(self, q):
         rng = self.rng
         v = ''.join(rng.choice([c for c in self.text_alpha if c != q and c != '\\']) for _ in range(rng.randint(0, 5)))
         if not self.wild and rng.random() < 0.25:
-            v += rng.choice(['(x)', '[y]', '{z}', '<b>', 'a>b', '</i>', "'" if q == '"' else '"'])
+            v += rng.choice(['(x)', '[y]', '{z}', '<b>', 'a>b', '</i>', "'" if q == '"' else '"', 'f(x, y)', '(a b)', '[c, d]', '{e f}',
+                             "go('x')" if q == '"' else 'go("x")', '([k l])', '{(m n)}'])
         return v
 
     def attr(self):
@@ -443,7 +444,32 @@ LEFTS = [
     ('tag', '<div title=x>'), ('tag', '<div a=b c="d e">'), ('tag', '<input disabled>'), ('tag', 'text <b>'),
     ('tag', '<p>hi</p>'), ('tag', "<a title='<>' x>"), ('tag', '<ns:el data-a="1" b=2 c />'), ('tag', '</foo-bar >'),
     ('tag', '<p a="" >'), ('tag', '>>> <i\tb>'),
+    ('tag', '<div  a=b>'), ('tag', '<div \ta=b  c>'), ('tag', '<a   href="x"   >'), ('tag', '<td  colspan=2  \t>'),
 ]
+
+
+def gen_clean_tag(rng):
+    """a complete, well-formed HTML tag with arbitrary white-space runs between its parts"""
+    def ws(lo=1):
+        return ''.join(rng.choice(' \t') for _ in range(rng.randint(lo, 3)))
+    nm = rng.choice(['div', 'a', 'br', 'foo-bar', 'ns:el', 'h1', 'x', 'td'])
+    if rng.random() < 0.15:
+        return '</' + nm + ws(0) + '>'
+    s = '<' + nm
+    for _ in range(rng.randint(0, 3)):
+        s += ws()
+        an = rng.choice(['a', 'title', 'data-x', 'x:y', 'b1', 'hidden'])
+        r = rng.random()
+        if r < 0.25:
+            s += an
+        elif r < 0.55:
+            s += an + '=' + rng.choice(['b', 'c1', 'x-y', 'x_1', '10', 'true'])
+        elif r < 0.85:
+            s += an + '="' + rng.choice(['', 'b', 'b c', '<>', "it's", 'a=b', 'x > y', ' ']) + '"'
+        else:
+            s += an + "='" + rng.choice(['', 'b', 'b c', '"', '>', 'a=']) + "'"
+    s += rng.choice(['', '', ws(), ws() + '/', '/'])
+    return s + '>'
 RIGHTS = [('eol', ''), ('ws-text', ' tail'), ('ws-text', '\tx>y'), ('ws-text', ' <b>'), ('text', 'foo'), ('text', '<i>')]
 PREFIXES = ['<', '>>>', '!!', 'x-', '=', '</', '\\']
 
@@ -469,6 +495,8 @@ def rt_cases(rng, abbr, markup, budget):
         for rk, right in RIGHTS:
             combos.append((lk, left, rk, right))
     rng.shuffle(combos)
+    for _ in range(2):
+        combos.insert(rng.randint(0, max(0, min(budget, len(combos)) - 1)), ('tag', gen_clean_tag(rng)) + rng.choice(RIGHTS))
     out = []
     for lk, left, rk, right in combos[:budget]:
         for look in (True, False):
